@@ -594,36 +594,85 @@ impl SerializableValue {
 
     /// Parse a function source string into a SerializableLambdaDef
     fn parse_function_source(source: &str) -> Result<SerializableLambdaDef> {
-        use crate::expressions::pairs_to_expr;
-        use crate::parser::get_pairs;
+        use crate::ast::Expr;
 
-        // Parse the source as an expression
-        let pairs = get_pairs(source)?;
+        // A source that is one lambda expression as a whole
+        if let Ok(Expr::Lambda { args, body }) = Self::parse_single_expression(source) {
+            // Since the function is already inlined (no scope needed),
+            // we create a SerializableLambdaDef with the source as the body
+            return Ok(SerializableLambdaDef {
+                name: None,
+                args,
+                body: crate::ast_to_source::expr_to_source(&body),
+                scope: None, // Functions from JSON have no scope - they're already inlined
+            });
+        }
 
-        // Extract the lambda expression from the parsed pairs
-        for pair in pairs {
-            if let crate::parser::Rule::statement = pair.as_rule()
-                && let Some(inner_pair) = pair.into_inner().next()
-                && let crate::parser::Rule::expression = inner_pair.as_rule()
-            {
-                // Parse the expression to get an AST
-                let expr = pairs_to_expr(inner_pair.into_inner())?;
-
-                // Check if it's a lambda
-                if let crate::ast::Expr::Lambda { args, body } = expr.node {
-                    // Since the function is already inlined (no scope needed),
-                    // we create a SerializableLambdaDef with the source as the body
-                    return Ok(SerializableLambdaDef {
-                        name: None,
-                        args,
-                        body: crate::ast_to_source::expr_to_source(&body),
-                        scope: None, // Functions from JSON have no scope - they're already inlined
-                    });
-                }
-            }
+        // Emitted sources have the form `(params) => body` with the body printed as a complete
+        // expression. A body such as `l via f` ends the lambda early when the text is parsed as a
+        // whole (lambda bodies do not admit a bare `via` / `into` / `where`), so parse the
+        // parameter list and the body separately.
+        if let Some((params, body_source)) = Self::split_at_arrow(source)
+            && let Ok(Expr::Lambda { args, .. }) =
+                Self::parse_single_expression(&format!("{} => null", params))
+            && let Ok(body) = Self::parse_single_expression(body_source)
+        {
+            return Ok(SerializableLambdaDef {
+                name: None,
+                args,
+                body: crate::ast_to_source::expr_to_source(&crate::ast::Spanned::dummy(body)),
+                scope: None,
+            });
         }
 
         Err(anyhow!("Failed to parse function source: {}", source))
+    }
+
+    /// Parse a source text that consists of exactly one expression statement
+    fn parse_single_expression(source: &str) -> Result<crate::ast::Expr> {
+        use crate::expressions::pairs_to_expr;
+        use crate::parser::{Rule, get_pairs};
+
+        let mut statements = get_pairs(source)?.filter(|pair| pair.as_rule() == Rule::statement);
+        let statement = statements
+            .next()
+            .ok_or_else(|| anyhow!("no expression in: {}", source))?;
+        if statements.next().is_some() {
+            return Err(anyhow!("more than one statement in: {}", source));
+        }
+        let inner = statement
+            .into_inner()
+            .next()
+            .filter(|pair| pair.as_rule() == Rule::expression)
+            .ok_or_else(|| anyhow!("not an expression: {}", source))?;
+        Ok(pairs_to_expr(inner.into_inner())?.node)
+    }
+
+    /// Split `params => body` at the first `=>` that is outside string literals and brackets
+    fn split_at_arrow(source: &str) -> Option<(&str, &str)> {
+        let mut depth = 0usize;
+        let mut in_string: Option<char> = None;
+        let mut previous = ' ';
+        for (index, c) in source.char_indices() {
+            match in_string {
+                Some(quote) => {
+                    if c == quote {
+                        in_string = None;
+                    }
+                }
+                None => match c {
+                    '"' | '\'' => in_string = Some(c),
+                    '(' | '[' | '{' => depth += 1,
+                    ')' | ']' | '}' => depth = depth.saturating_sub(1),
+                    '>' if previous == '=' && depth == 0 => {
+                        return Some((&source[..index - 1], &source[index + 1..]));
+                    }
+                    _ => {}
+                },
+            }
+            previous = c;
+        }
+        None
     }
 
     /// Convert SerializableValue to clean serde_json::Value
